@@ -21,6 +21,8 @@ Called from extract.py (`gen_tx`).  Extracted from /repo/src (comments stripped)
   * `Gen.execNotifiesWaiters`  the LPUSH/RPUSH arms of `process_normal_command` notify the blocking
                          manager even when `conn_id == 0` (inside EXEC), or `handle_exec` does not serve
                          the pushed keys after its loop;
+  * `Gen.queueClearedWhenTransactionEnds`  `handle_multi` clears the queue, or every exit of `handle_exec`
+                         that leaves the transaction and `handle_discard` clear / take it;
   * `Gen.txUnrecognised`  what could NOT be read off the source.  Every fact is extracted on its own; a
                          shape that is not recognised yields the PESSIMISTIC value (the deviation is assumed)
                          and an entry here, never a definition that does not elaborate: the model and the
@@ -119,6 +121,18 @@ def facts(src, strip_comments, fn_body, repo=None):
     if qc is not None and "push_back(parts)" in qc and 'b"QUEUED"' in qc:
         out["queue_validates"] = bool(re.search(r"\bif\b|\bmatch\b|RespFrame::error|aborted", qc))
 
+    # ---- is the queue emptied wherever a transaction ends?  (handle_multi clears it, or every exit of
+    #      handle_exec / handle_discard that leaves the transaction clears or takes it)
+    out["queue_cleared"] = None
+    hm, hd = fn_body(tx, "handle_multi"), fn_body(tx, "handle_discard")
+    if hm is not None and hd is not None and he is not None and "in_transaction = true" in hm:
+        clears = r"queued_commands\s*\.\s*clear\(\)|take\(\s*&mut\s+conn\.transaction_state\.queued_commands\s*\)"
+        multi_clears = re.search(clears, hm) is not None
+        exits = len(re.findall(r"in_transaction\s*=\s*false", he))
+        exits_clear = exits > 0 and len(re.findall(clears, he)) >= exits and re.search(clears, hd) is not None
+        out["queue_cleared"] = bool(multi_clears or exits_clear)
+        out["queue_cleared_detail"] = (multi_clears, exits_clear)
+
     # ---- SELECT / blocking pops inside EXEC
     out["select_ignored"] = None
     if pcp is not None and he is not None:
@@ -145,7 +159,10 @@ def facts(src, strip_comments, fn_body, repo=None):
             loop_end = he.rfind("commands_to_execute")
             serves_after = re.search(r"for\s*\(\s*db\s*,\s*key\s*\)\s+in\s+pushed_keys\s*\{\s*self\.serve_key\(", he[loop_end:]) is not None \
                 and "notify_key_ready" not in he and "process_wakeups" not in he
-            out["exec_notifies"] = not (quiet and serves_after)
+            # the sweep after EVAL/EVALSHA/RENAME/RENAMENX at the end of process_normal_command must not run inside EXEC either
+            sweep = re.search(r'if\s+([^{]*?)matches!\(\s*command_name\.as_str\(\)\s*,\s*"EVAL"\s*\|\s*"EVALSHA"\s*\|\s*"RENAME"\s*\|\s*"RENAMENX"\s*\)\s*\{', pn)
+            sweep_quiet = sweep is None or re.search(r"conn_id\s*!=\s*0\s*&&", sweep.group(1)) is not None
+            out["exec_notifies"] = not (quiet and serves_after and sweep_quiet)
     return out
 
 
@@ -195,6 +212,10 @@ def generate(src, strip_comments, fn_body, header, repo=None):
     item("pushes run by EXEC notify blocked clients (the LPUSH/RPUSH arms do not stop at `conn_id == 0`, or handle_exec does not serve the pushed keys after its loop)",
          "execNotifiesWaiters", "Bool", None if f["exec_notifies"] is None else b(f["exec_notifies"]), "true",
          "LPUSH/RPUSH arms of process_normal_command or the tail of handle_exec not recognised")
+    item("a new transaction starts with an empty queue: `handle_multi` clears `queued_commands`, or every exit of `handle_exec` that leaves the transaction "
+         "(refused by WATCH, flagged, run) and `handle_discard` clear or take it",
+         "queueClearedWhenTransactionEnds", "Bool", None if f["queue_cleared"] is None else b(f["queue_cleared"]), "false",
+         "handle_multi / handle_discard / handle_exec not recognised")
     L.append("/-- what translator/tx_facts.py could not read off the source (pessimistic values above) -/")
     L.append("def txUnrecognised : List String := [%s]" % ", ".join('"%s"' % u.replace("\\", "/").replace('"', "'") for u in unknown))
     L += ["", "end Ferrous.Gen", ""]
